@@ -10,7 +10,7 @@ def unhex (s : String) : Bytes :=
   let rec go : List Char → Bytes
     | a :: b :: r => (unhexNibble a * 16 + unhexNibble b).toUInt8 :: go r
     | _ => []
-  go s.toList
+  if s = "e" then [] else go s.toList
 
 structure DState where
   types : List (String × Nat) := [("T_CLOSURE", 1), ("T_CONST", 2), ("T_SEQ", 3), ("T_STR", 4), ("T_ASET", 6)]
